@@ -136,6 +136,11 @@ func checkC04(c c04Case, _ *kit.Collector) kit.Result {
 				hx(g.body), hx(g.data), f.ID, f.Serial, f.No, f.Total, hx(f.Body))
 			return res
 		}
+		// what the extractor handed out is still that message once the whole stream has been read
+		if why := g.stable(); why != "" {
+			res.Err = kit.Fail("message %d (id=%#04x serial=%d) no longer holds what was extracted after the rest of the stream was read: %s", i, f.ID, f.Serial, why)
+			return res
+		}
 	}
 	if fd.ex.HistoryLen() != 0 {
 		res.Err = kit.Fail("%d bytes left in the buffer after a stream of complete frames", fd.ex.HistoryLen())
